@@ -165,7 +165,9 @@ def report(ctx, traces, rej):
     quotes = [t for t in rejected if t["cfg"]["mode"] != "split"]
     for t in quotes:
         e = t["ev"][0]
-        ctx.violation("quote-roundtrip/%s/text-classes=%s" % (t["cfg"]["mode"], ",".join(str(c) for c in e["text"][:12])),
+        names = {16: "MQUOTE", 0: "NUL", 10: "LF", 13: "CR", 92: "XQUOTE", 1: "XDELIM"}
+        special = sorted({names[c] for c in e["text"] if c in names})
+        ctx.violation("quote-roundtrip/%s/special-characters-in-text=%s" % (t["cfg"]["mode"], "+".join(special) or "none"),
                       "%sDequote(%sQuote(%r)) = %r (quoted: %r, exc %r)" % (t["cfg"]["mode"], t["cfg"]["mode"], e["text"], e["back"], e["q"], e["exc"]),
                       dict(kind="quote", level=t["cfg"]["mode"], text=e["text"]))
     if not sends:
